@@ -176,7 +176,7 @@ Definition mint (s : st) (gi : nat) (cls : tcls) (based : option nat) (scope : o
 
 (* ---- what a presented string resolves to ---- *)
 Inductive tokref := TRef (id : nat) | Garbage.
-Inductive resolved := RTok (gi : nat) (g : grant) (t : token) | RUnknown | RWrongClass.
+Inductive resolved := RTok (gi : nat) (g : grant) (t : token) | RUnknown | RWrongClass | RTooOld | RCrash.
 (* get_session_info_by_token(value, handler_key=k) *)
 Definition resolve_as (c : cfg) (k : tcls) (r : tokref) (s : st) : resolved :=
   match r with
@@ -197,7 +197,17 @@ Definition resolve_any (r : tokref) (s : st) : resolved :=
   | Garbage => RUnknown
   | TRef id => match find_tok id s with
                | None => RUnknown
-               | Some (gi, g, t) => match t_cls t with IdTok => RWrongClass | _ => RTok gi g t end
+               | Some (gi, g, t) =>
+                   match t_cls t with
+                   | IdTok =>
+                       (* IDToken.info: cryptojwt JWT.unpack (skew 15 s) raises VerificationError once
+                          now >= exp + 15; before that is_expired(exp) raises ToOld once now > exp;
+                          otherwise the payload carries the session id and the token resolves *)
+                       if t_exp t + 15 <=? now s then RCrash
+                       else if t_exp t <? now s then RTooOld
+                       else RTok gi g t
+                   | _ => RTok gi g t
+                   end
                end
   end.
 
@@ -248,7 +258,7 @@ Definition push_parsed (s : st) (p : preq) : st := mkSt (now s) (grants s) (next
 Definition do_token_parse (c : cfg) (s : st) (cl : pystr) (r : tokref) (redir : option pystr) : st * out :=
   match resolve_as c Code r s with
   | RUnknown => (push_parsed s (PErr EInvalidGrant), OErr EInvalidGrant)
-  | RWrongClass => (s, OExc)                 (* WrongTokenClass propagates out of parse_request; nothing is stored *)
+  | RWrongClass | RTooOld | RCrash => (s, OExc)   (* WrongTokenClass propagates out of parse_request; nothing is stored *)
   | RTok gi g t =>
       if c_oidc c && negb (t_used t =? 0) then
         (* a used code: invalidate everything minted from it *)
@@ -263,7 +273,7 @@ Definition do_token_parse (c : cfg) (s : st) (cl : pystr) (r : tokref) (redir : 
 Definition do_refresh_parse (c : cfg) (s : st) (cl : pystr) (r : tokref) (sc : option (list pystr)) : st * out :=
   match resolve_as c Refresh r s with
   | RUnknown => (push_parsed s (PErr EInvalidGrant), OErr EInvalidGrant)
-  | RWrongClass => (s, OExc)
+  | RWrongClass | RTooOld | RCrash => (s, OExc)
   | RTok gi g t =>
       if negb (tok_active (now s) t) then (push_parsed s (PErr EInvalidRequest), OErr EInvalidRequest)
       else match sc with
@@ -421,6 +431,7 @@ Definition do_introspect (c : cfg) (s : st) (cl : pystr) (r : tokref) : st * out
                else (s, OInactive)
            | _ => (s, OInactive)
            end
+  | RCrash => (s, OExc)                                (* VerificationError("Token expired") is not caught *)
   | _ => (s, OInactive)
   end.
 
@@ -428,7 +439,11 @@ Definition do_revoke_ep (c : cfg) (s : st) (cl : pystr) (r : tokref) : st * out 
   match resolve_any r s with
   | RTok gi g t =>
       if negb (str_eqb cl (g_client g)) then (s, OErr EInvalidGrant)
-      else (upd_tok (t_id t) revoke_t s, OOk)
+      else match t_cls t with
+           | IdTok => (s, OErr EOther)                   (* unsupported_token_type *)
+           | _ => (upd_tok (t_id t) revoke_t s, OOk)
+           end
+  | RTooOld | RCrash => (s, OExc)                      (* neither exception is caught by the endpoint *)
   | _ => (s, OOk)
   end.
 
